@@ -30,3 +30,20 @@ package operation
 //@     invariant 0 <= iter() && iter() <= len(ops)
 //@     invariant (opsErrs == nil) == forall(j, 0, iter(), Valid(ops[j]))
 //@     invariant opsErrs != nil ==> len(opsErrs.Errors) > 0
+
+// C12 / C16: the metrics file yields one operation per document its decoder produced, each once
+// and in order, with the `set` / `add` shortcuts turned into action and value; a decoder error
+// other than the end of the stream fails the whole file (a malformed file never yields a prefix).
+//@ func MetricOperationsFromReader
+//@   prop C12, C16
+//@   requires json.nDecoded >= 0
+//@   requires [assumed:io.EOF-is-a-non-nil-error] io.EOF != nil
+//@   modifies json.nDecoded, json.decodedInto, json.lastDecErr, allelems(MetricOperation)
+//@   ensures [count] result1 == nil ==> len(result0) == json.nDecoded - old(json.nDecoded)
+//@   ensures [every-operation-in-order] result1 == nil ==> forall(j, 0, len(result0), dyntype(json.decodedInto[old(json.nDecoded) + j], *MetricOperation) && result0[j] == *json.decodedInto[old(json.nDecoded) + j].(*MetricOperation))
+//@   ensures [decoder-error-fails] result1 == nil ==> json.lastDecErr == io.EOF
+//@   ensures [shortcuts-normalized] result1 == nil ==> forall(j, 0, len(result0), Normalized(result0[j]))
+//@   loop 1
+//@     invariant fresh(operations) && json.nDecoded >= old(json.nDecoded) && len(operations) == json.nDecoded - old(json.nDecoded)
+//@     invariant forall(j, 0, len(operations), dyntype(json.decodedInto[old(json.nDecoded) + j], *MetricOperation) && allocated(json.decodedInto[old(json.nDecoded) + j].(*MetricOperation)) && operations[j] == *json.decodedInto[old(json.nDecoded) + j].(*MetricOperation))
+//@     invariant forall(j, 0, len(operations), Normalized(operations[j]))
